@@ -14,6 +14,7 @@ Inductive bfn :=
 | B_Int_add | B_Int_sub | B_Int_mul | B_Int_pow | B_Int_div | B_Int_fdiv | B_Int_mod | B_Int_cmp
 | B_Int_eq | B_Int_neq | B_Int_neg | B_Int_B | B_Int_iter | B_Int_new | B_Int_bear | B_Int_incBy | B_Int_at
 | B_Str_add | B_Str_mul | B_Str_eq | B_Str_cmp | B_Str_B | B_Str_len | B_Str_at | B_Str_iter | B_Str_new
+| B_Str_uc | B_Str_lc | B_Str_symp
 | B_Arr_add | B_Arr_mul | B_Arr_eq | B_Arr_B | B_Arr_len | B_Arr_at | B_Arr_iter | B_Arr_new | B_Arr_call
 | B_Arr_has | B_Arr_join | B_Arr_O | B_Arr_M | B_Arr_bear | B_Float_B | B_Float_eq | B_Float_cmp
 | B_Map_eq | B_Map_B | B_Map_len | B_Map_at | B_Map_iter | B_Map_keys | B_Map_values | B_Map_items
@@ -41,7 +42,7 @@ Definition bfn_table : list (string * bfn) :=
    ("Int#_iter", B_Int_iter); ("Int#new", B_Int_new); ("Int#bear", B_Int_bear); ("Int#_incBy", B_Int_incBy); ("Int#at", B_Int_at);
    ("Str#+", B_Str_add); ("Str#*", B_Str_mul); ("Str#==", B_Str_eq); ("Str#<=>", B_Str_cmp);
    ("Str#B", B_Str_B); ("Str#len", B_Str_len); ("Str#at", B_Str_at); ("Str#_iter", B_Str_iter);
-   ("Str#new", B_Str_new);
+   ("Str#new", B_Str_new); ("Str#uc", B_Str_uc); ("Str#lc", B_Str_lc); ("Str#sym?", B_Str_symp);
    ("Arr#+", B_Arr_add); ("Arr#*", B_Arr_mul); ("Arr#==", B_Arr_eq); ("Arr#B", B_Arr_B);
    ("Arr#len", B_Arr_len); ("Arr#at", B_Arr_at); ("Arr#_iter", B_Arr_iter); ("Arr#new", B_Arr_new);
    ("Arr#call", B_Arr_call); ("Arr#has?", B_Arr_has); ("Arr#join", B_Arr_join); ("Arr#O", B_Arr_O);
@@ -237,6 +238,42 @@ Fixpoint ident_tail (s : string) : bool :=
 Definition is_public (s : string) : bool :=
   match s with String c t => is_alpha c && ident_tail t | EmptyString => false end.
 
+(* object.isSym: public | _public | \digits | \name | operator *)
+Definition is_digit (c : ascii) : bool := let n := nat_of_ascii c in ((48 <=? n)%nat && (n <=? 57)%nat).
+Fixpoint all_digits (s : string) : bool :=
+  match s with EmptyString => true | String c t => is_digit c && all_digits t end.
+Definition op_syms : list string :=
+  ["<=>"; "=="; "!="; ">="; "<="; ">"; "<"; "<<"; ">>"; "/&"; "/|"; "/^"; "/~"; "!"; "+"; "-"; "*"; "**"; "/"; "//"; "%"; "-%"; "+%"].
+Definition is_sym (s : string) : bool :=
+  is_public s ||
+  match s with
+  | String c t =>
+      if (nat_of_ascii c =? 95)%nat then is_public t
+      else if (nat_of_ascii c =? 92)%nat then
+        all_digits t || match t with
+                        | String d u => (is_alpha d || (nat_of_ascii d =? 95)%nat) && ident_tail u
+                        | EmptyString => false
+                        end
+      else false
+  | EmptyString => false
+  end || existsb (String.eqb s) op_syms.
+
+(* strings.ToUpper / ToLower on ASCII text; None when the text has a byte >= 128 (Unicode case tables are not modelled) *)
+Fixpoint map_case (up : bool) (s : string) : option string :=
+  match s with
+  | EmptyString => Some EmptyString
+  | String c t =>
+      let n := nat_of_ascii c in
+      if (128 <=? n)%nat then None else
+      match map_case up t with
+      | None => None
+      | Some t' =>
+          let n' := if up then (if ((97 <=? n)%nat && (n <=? 122)%nat) then n - 32 else n)
+                    else (if ((65 <=? n)%nat && (n <=? 90)%nat) then n + 32 else n) in
+          Some (String (ascii_of_nat n') t')
+      end
+  end.
+
 (* ---- well-known objects: ids are fixed by gen/World.v through a name table *)
 Record wk := { wk_names : list (string * nat) }.
 Definition wk_id (w : wk) (n : string) : nat :=
@@ -392,6 +429,25 @@ Definition f_key (b : Z) : Z := if f_sign b then (- f_mag b)%Z else f_mag b.   (
 (* Go's ==, <, > on float64: all false when an operand is NaN *)
 Definition f_eq (a b : Z) : bool := negb (f_nan a) && negb (f_nan b) && (f_key a =? f_key b)%Z.
 Definition f_gt (a b : Z) : bool := negb (f_nan a) && negb (f_nan b) && (f_key a >? f_key b)%Z.
+
+(* int64(math.Floor(f)) from the IEEE-754 bits; None for NaN, infinities and results outside int64 (Go's conversion is
+   implementation-defined there) *)
+Definition f_floor_int (b : Z) : option Z :=
+  let e := (f_mag b / 4503599627370496)%Z in            (* biased exponent, 11 bits *)
+  let m := (f_mag b mod 4503599627370496)%Z in          (* 52 mantissa bits *)
+  if (e =? 2047)%Z then None
+  else if (e =? 0)%Z then Some (if f_sign b && negb (m =? 0)%Z then (-1)%Z else 0%Z)
+  else
+    let sig := (4503599627370496 + m)%Z in
+    let sh := (e - 1075)%Z in
+    let mag_floor := if (0 <=? sh)%Z then (if (sh <=? 11)%Z then Some (sig * 2 ^ sh, true)%Z else None)
+                     else Some ((sig / 2 ^ (- sh))%Z, ((sig mod 2 ^ (- sh)) =? 0)%Z) in
+    match mag_floor with
+    | None => None
+    | Some (q, exact) =>
+        let r := if f_sign b then (if exact then (- q)%Z else (- q - 1)%Z) else q in
+        if ((-9223372036854775808 <=? r) && (r <=? 9223372036854775807))%Z then Some r else None
+    end.
 
 (* ---- Inspect() ----------------------------------------------------------- *)
 Definition quote_str (s : string) : string :=
